@@ -2752,6 +2752,7 @@ impl<T, A: BumpAllocatorTyped> BumpVec<T, A> {
 
             let new_ptr = match self.allocator.grow(old_ptr, old_layout, new_layout) {
                 Ok(ok) => ok.cast(),
+                Err(_) if self.allocator.is_claimed() => return Err(E::claimed()),
                 Err(_) => return Err(E::allocation(new_layout)),
             };
 
